@@ -95,6 +95,21 @@ def shard(p):
             order = sorted(range(len(reqs)), key=lambda i: meta[i][1])
             order = order + order[::-1]
             reqs, meta = [x[0] for x in pre] + [reqs[i] for i in order], [x[1] for x in pre] + [meta[i] for i in order]      # interference first
+        # interference of another kind: phrases the search library refuses or reads as operators (a dangling upper-case NOT / OR / AND,
+        # an only-excluding phrase), sprinkled between the judged lookups of the session. A scratch buffer or a flag that the error path
+        # leaves behind meets the next fact (seeds C16-h, C18-h)
+        ws = sorted({t for f in p["facts"] for t in f["tokens"] if t.isalpha() and len(t) > 2})
+        if ws:
+            nr, nm = [], []
+            for r_, m_ in zip(reqs, meta):
+                if rng.random() < 0.03:
+                    e = rng.choice(["%s NOT", "OR %s", "%s AND AND x", "NOT %s", "%s OR", "%s radius OR", "NOT NOT %s", "%s mass NOT"]) % rng.choice(ws)
+                    nr.append({"op": "query", "q": e, "describe": True})
+                    nm.append((None, e, False))
+                    acc.count("refused_phrases_between_lookups")
+                nr.append(r_)
+                nm.append(m_)
+            reqs, meta = nr, nm
         for i in range(0, len(reqs), 2000):
             try:
                 reps = d.call_many(reqs[i:i + 2000], timeout=600)
